@@ -238,19 +238,26 @@ def run(ctx):
                                               "oracle": "a decompressed cell of the compressed blind-rotation key differs from the standard encryption under the stored seed",
                                               "rerun": f"printf '%s\\n' '{req}' | harness/target/release/pvh rndb"}
             # LWECompressed (no producing routine in poulpy-core): built from its wire format out of a standard LWE ciphertext with
-            # source_xa = Source::new(seed); decompress_lwe must return that ciphertext; the model runs decompress_lwe as it is
-            ll = []
+            # source_xa = Source::new(seed); decompress_lwe into a receiver of the same radix and size must return that ciphertext for
+            # every LWE dimension; a receiver with another radix or number of limbs must be refused (assertion) — on both sides
+            ll, lmeta = [], []
             for be in BES:
-                for j in range(6 if quick else 60):
+                for j in range(12 if quick else 120):
                     b = rng.range(3, 17)
                     size = rng.range(1, 3)
                     k = (size - 1) * b + rng.range(1, b)
-                    nl = [1, 1, 2, 3, 5, 8][j % 6]
+                    nl = [1, 2, 3, 4, 5, 6, 7, 8, 2, 5, 3, 8][j % 12]
                     ptv = "|".join(str(rng.range(-(1 << (b - 1)), (1 << (b - 1)) - 1)) for _ in range(size))
+                    extra, mism = "", "none"
+                    if j % 12 in (8, 9):                 # other radix, same number of limbs
+                        rb = b + 1 if b < 17 else b - 1
+                        extra, mism = f" resb={rb} resk={size * rb}", "base2k"
+                    elif j % 12 in (10, 11):             # same radix, one limb more
+                        extra, mism = f" resb={b} resk={(size + 1) * b}", "size"
                     ll.append(f"{len(ll)} lwec be={be} n=8 nl={nl} b={b} k={k} kxe={k} rank=1 dnum=1 dsize=1 dist={rng.choice(['tp:0.5', 'bp:0.5'])} "
-                              f"sxs={rng.next()} sxa={rng.next()} sxe={rng.next()} ptv={ptv}")
+                              f"sxs={rng.next()} sxa={rng.next()} sxe={rng.next()} ptv={ptv}{extra}")
+                    lmeta.append(mism)
             rcl, lout, lerr = ctx.run_lines(binp, ["cmp"], ll, timeout=3000)
-            lwe_finding = None
             if rcl != 0 or len(lout) != len(ll):
                 broken.append(f"pvh cmp lwec failed rc={rcl} {lerr[-300:]}")
             else:
@@ -259,41 +266,48 @@ def run(ctx):
                     _, st, a = parse_answer(line)
                     kvr = dict(x.split("=", 1) for x in req.split()[2:] if "=" in x)
                     per_layout["lwec"] = per_layout.get("lwec", 0) + 1
-                    ctx.count_case(("lwec", kvr["be"], kvr["nl"], kvr["b"], kvr["k"]))
+                    ctx.count_case(("lwec", kvr["be"], kvr["nl"], kvr["b"], kvr["k"], lmeta[j]))
                     if st != "ok":
                         ctx.disagreements += 1
                         broken.append(f"implementation failed: {req} -> {line[:160]}")
                         lml.append(f"{j} enc lwe_dec b=1 nl=0 body=0 xa=0")
                         continue
-                    lml.append(f"{j} enc lwe_dec b={kvr['b']} nl={kvr['nl']} body={a['body']} xa={a['child']}")
+                    lml.append(f"{j} enc lwe_dec b={kvr['b']} nl={kvr['nl']} resb={kvr.get('resb', kvr['b'])} ressize={a['ressize']} body={a['body']} xa={a['child']}")
                 rcm, lmout, lmerr = ctx.run_lines(drv, [], lml, timeout=3000)
                 if rcm != 0 or len(lmout) != len(lml):
                     broken.append(f"pdriver lwe_dec failed rc={rcm} {lmerr[-200:]}")
                 else:
                     lagree = 0
-                    for req, line, ln in zip(ll, lout, lmout):
+                    refused = 0
+                    for j, (req, line, ln) in enumerate(zip(ll, lout, lmout)):
                         _, st, a = parse_answer(line)
                         if st != "ok":
                             continue
                         t = ln.split()
                         model = t[1] if len(t) > 1 else ""
                         impl_panic = a["dec"] == "-2"
-                        if (model == "panic") == impl_panic and (impl_panic or (model == a["obj"] and a["dec"] == "1" and a["ser"] == "1")):
+                        impl_assert = impl_panic and a.get("panic", "").startswith("assert")
+                        if model == "panic":
+                            okm = impl_assert
+                            refused += okm
+                        else:
+                            okm = (not impl_panic) and model == a["obj"] and a["ser"] == "1"
+                        if okm:
                             lagree += 1
                         else:
                             ctx.disagreements += 1
                             if len(broken) < 20:
                                 broken.append(f"model/implementation disagree (lwec): {req} -> {line[:200]} / model {ln[:120]}")
-                        if impl_panic and lwe_finding is None:
-                            lwe_finding = {"case": req, "implementation": line[:400], "object": "LWECompressed",
-                                           "oracle": "decompress_lwe panics (layout assertion) although the decompression is well defined and equals the "
-                                                     "standard ciphertext (model: Core.decompressLwe = ct, theorem C19.lwe_compress_decompress)",
-                                           "rerun": f"printf '%s\\n' '{req}' | harness/target/release/pvh cmp"}
+                        # the property itself: same radix and size => decompress_lwe returns the standard ciphertext, whatever the dimension
+                        if lmeta[j] == "none" and a["dec"] != "1":
+                            ctx.oracle_failures += 1
+                            witness = witness or {"case": req, "implementation": line[:400], "object": "LWECompressed",
+                                                  "oracle": "decompress_lwe does not return the standard LWE ciphertext encrypted with Source::new(seed) "
+                                                            "(theorem C19.lwe_decompress)",
+                                                  "rerun": f"printf '%s\\n' '{req}' | harness/target/release/pvh cmp"}
                     ctx.cov["model_tied_lwec"] = len(lml)
                     ctx.cov["model_agree_lwec"] = lagree
-            if lwe_finding is not None:
-                ctx.violation("decompress_lwe rejects every LWE dimension other than 1: LWECompressed::n() reports the ring degree of its body buffer",
-                              lwe_finding, True, key="decompress_lwe:layout-assert:n_lwe!=1")
+                    ctx.cov["lwec_refused_on_both_sides"] = refused
             ctx.cov["objects_by_layout"] = per_layout
             ctx.cov["cells_total"] = cells_total
             ctx.cov["by_backend"] = {be: sum(1 for c in cases if c["be"] == be) for be in BES}
